@@ -50,8 +50,9 @@ Files0 == [p \in {"a", "b", "m", "d", "t", "si", "so", "se", "s"} |->
 
 FdE(id) == [id |-> id, cx |-> FALSE]
 Std == (0 :> FdE(0)) @@ (1 :> FdE(1)) @@ (2 :> FdE(2))
-StdOfd == (0 :> NewOfd("si", TRUE, TRUE, FALSE, <<>>)) @@ (1 :> NewOfd("so", TRUE, TRUE, FALSE, <<>>))
-          @@ (2 :> NewOfd("se", TRUE, TRUE, FALSE, <<>>))
+\* (VirtualSystem opens its /dev/stdout and /dev/stderr with O_APPEND)
+StdOfd == (0 :> NewOfd("si", TRUE, TRUE, FALSE, <<>>)) @@ (1 :> NewOfd("so", TRUE, TRUE, TRUE, <<>>))
+          @@ (2 :> NewOfd("se", TRUE, TRUE, TRUE, <<>>))
 
 \* initial descriptor tables
 \*  std : 0 1 2                          x35 : + 3 reading a, 5 appending to b
@@ -115,7 +116,7 @@ Scenarios ==
     CASE Cfg = "dbg" -> Family({"std"}, {FALSE}, {NoLimit}, {"builtin"},
                                {<<R(1, "out", "a", -1), R(1, "out", "m", -1)>>})
       [] Cfg = "neg" -> Family({"std", "x35"}, BOOLEAN, {NoLimit}, {"builtin", "exec"},
-                               Seq1(Small) \cup Seq2(Small, Small))
+                               Seq1(Small \cup Alpha({1}, {"clob"}, {"a"}, {}, {})) \cup Seq2(Small, Small))
       [] Cfg = "tiny" -> Family({"std", "x35"}, {FALSE}, {NoLimit, 11}, {"builtin", "exec"},
                                 Seq1(Small) \cup {<<>>})
       \* every single redirection x every kind x every initial table, no limit
@@ -392,6 +393,11 @@ TypeOK == /\ pc \in {"begin", "check", "save", "open", "open2", "install", "reco
           /\ failed \in 0 .. 3
 
 \* P2: one line per scenario: the scenario and the driver's prediction
+Brief(tab) == [j \in DOMAIN tab |-> <<tab[j].fd, tab[j].id, IF tab[j].cx THEN 1 ELSE 0>>]
 Emit == pc = "done" =>
-          PrintT(ToJson([init |-> sc.init, sem |-> SemFail(ModelRec), rec |-> ModelRec]))
+          PrintT(ToJson([sc |-> sc,
+                         exp |-> [ran |-> ran, st |-> st, exited |-> exited, failed |-> failed,
+                                  tin |-> Brief(obsIn), after |-> Brief(KTable(k)),
+                                  wr |-> [j \in DOMAIN wr |-> wr[j].ok],
+                                  files |-> KFiles(k, PathOrder)]]))
 =============================================================================
